@@ -397,6 +397,10 @@ func runLBAdmin(x *X) {
 		// eject perm's sibling through a real failure, switch, compare flags
 		var before, after map[string]bool
 		target := net.order[0]
+		// (the set itself -- names, addresses, weights -- is the operator's: failures, ejections and
+		// traffic do not touch it)
+		var listBefore adminOut
+		x.Do("admin", func() { listBefore = callAdmin(0, adminIn{Op: "list"}) }, onErr)
 		net.mu.Lock()
 		target.mode = "s500"
 		for _, b := range net.order {
@@ -414,6 +418,14 @@ func runLBAdmin(x *X) {
 		target.mode = "ok"
 		net.mu.Unlock()
 		if before != nil && !before["perm"] && !x.dead {
+			for j := 0; j < 4 && !x.dead; j++ {
+				x.Do("req", func() { h.do(reqSpec{client: fmt.Sprintf("198.51.100.%d", 30+j)}) }, onErr)
+			}
+			var listAfter adminOut
+			x.Do("admin", func() { listAfter = callAdmin(0, adminIn{Op: "list"}) }, onErr)
+			if !x.dead && listBefore.Code == 200 && listAfter.Code == 200 && listBefore.List != listAfter.List {
+				x.Violate("C11", "C11/membership-changed-by-ejection", "no admin call in between, one backend ejected through failed responses and four more requests: the admin API listed [%s] before and [%s] after", listBefore.List, listAfter.List)
+			}
 			ns := strategies[c.Intn(5, "newstrat")]
 			x.Do("admin", func() { callAdmin(0, adminIn{Op: "strategy", Strat: ns}) }, onErr)
 			x.Do("obs", func() { after = h.healthSnapshot() }, onErr)
